@@ -122,6 +122,12 @@ def plan_c01(ctx):
 
 def fault_stages(ctx):
     c = consts_for({"fault", "sym", "entry", "parent"}, SweepOps={"loadfault"}, SweepMode=True)
+    if os.environ.get("VERIF_CHILD"):
+        # the run under the other protobuf runtime: the faults of the initial IR only
+        r = run_tlc_config("Proto_fault0", emit=True, consts=c, action_constraints=["Sweep"], constraints=["Depth2"])
+        stages.stage_graph(ctx, "Proto_fault0", consts=c, result=r)
+        drain_pending(ctx, "structural faults")
+        return
     r = run_tlc_config("Proto_fault", emit=True, consts=c, action_constraints=["Sweep"])
     G = stages.stage_graph(ctx, "Proto_fault", consts=c, result=r)
     if G is not None:
@@ -197,9 +203,15 @@ def reader_stages(ctx):
     sweep_stage(ctx, "read", {"sym", "entry", "parent", "list"}, ("readmsg", "readmsg"))
 
 
+def writer_stages(ctx):
+    """the writer alone, twice from the same objects: (save when the universe is built,) any single edit, save again"""
+    sweep_stage(ctx, "write", DEQ_FAMS - {"reload", "shadow"}, ("writemsg", "writemsg"))
+
+
 def plan_c02(ctx):
     reload_stages(ctx)
     reader_stages(ctx)
+    writer_stages(ctx)
     other_backend(ctx)
     ctx.exhaustive = False
     ctx.notes["enum_constants_exercised"] = {k: len(v) for k, v in universe.SCHEMA.enums.items()}
